@@ -727,14 +727,17 @@ func filterRow(f *btpb.RowFilter, r *btpb.Row) (bool, error) {
 	case *btpb.RowFilter_CellsPerRowOffsetFilter:
 		// Skip the first n cells in the row.
 		offset := int(f.CellsPerRowOffsetFilter)
+		if offset < 0 {
+			return false, status.Errorf(codes.InvalidArgument, "cells_per_row_offset_filter must not be negative")
+		}
 		for _, fam := range r.Families {
 			for _, col := range fam.Columns {
 				if len(col.Cells) > offset {
 					col.Cells = col.Cells[offset:]
 					return true, nil
 				}
-				col.Cells = col.Cells[:0]
 				offset -= len(col.Cells)
+				col.Cells = col.Cells[:0]
 			}
 		}
 		return true, nil
